@@ -852,6 +852,12 @@ func (vc *VC) outsideClass(ob *Obligation, class string, o *runOpts) string {
 	for name, v := range vc.top.freeVar {
 		names[name] = SVal{T: v.T, P: v.P}
 	}
+	for tag, ks := range vc.commuteKeys {
+		if strings.Contains(ob.Name, "#commute.") && strings.Contains(ob.Name+".", tag) {
+			names["key1"] = vc.sval(ks[0], vc.commuteKeyT[tag])
+			names["key2"] = vc.sval(ks[1], vc.commuteKeyT[tag])
+		}
+	}
 	var pkg *types.Package
 	if vc.pkg != nil {
 		pkg = vc.pkg.Pkg
